@@ -866,7 +866,6 @@ func (p *parser) parseForStatement() Node {
 			p.advancePastNL()
 			return nil
 		}
-		p.scope.set(forNode.LoopVar.Name, forNode.LoopVar)
 		p.advance() // advance past loopVarName
 		p.assertToken(lexer.DECLARE)
 		p.advance() // advance past :=
@@ -878,6 +877,12 @@ func (p *parser) parseForStatement() Node {
 	tok := p.cur
 	p.advance() // advance past range
 	nodes := p.parseExprList()
+	if forNode.LoopVar != nil {
+		// The loop variable comes into scope after the range expression: a
+		// name in that expression refers to the enclosing scope, which is
+		// where the evaluator looks it up when it evaluates the range.
+		p.scope.set(forNode.LoopVar.Name, forNode.LoopVar)
+	}
 	if len(nodes) == 0 {
 		p.appendError("range cannot be empty")
 		return nil // previous error
